@@ -2,10 +2,9 @@ import ElvisVerif.Lemmas.ShiftProcess
 /-!
 # The API calls of the TCB commute with the shift map (C12)
 
-`open`, `send`, `receive`, `advance_time`, `close`, `abort`, `segments`.  Exclusions, both stated
-as hypotheses: `close` in SYN-RECEIVED (unset `SND.WL2`, F-C12-2), and `segments()` on a SYN-SENT
-TCB whose send window is not 0 (never the case for a TCB made by `open`: the pure-ACK header of a
-data segment would carry the unset `RCV.NXT`).
+`open`, `send`, `receive`, `advance_time`, `close`, `abort`, `segments`.  One exclusion, stated
+as a hypothesis: `segments()` on a SYN-SENT TCB whose send window is not 0 (never the case for a
+TCB made by `open`: the pure-ACK header of a data segment would carry the unset `RCV.NXT`).
 -/
 namespace Elvis.Tcp
 open Elvis.ModCmp
@@ -50,33 +49,55 @@ theorem shift_advanceTime (s : Tcb) (dt : Nat) :
     repeat' split
     all_goals rfl
 
-def closeTo (s : Tcb) (st : State) : Tcb := { s with snd.nxt := s.snd.nxt + 1, state := st }
+/-- the bump of `SND.NXT` over the FIN in `queue_fin` -/
+def bumpNxt (s : Tcb) : Tcb := { s with snd.nxt := s.snd.nxt + 1 }
 
-theorem shift_closeTo (s : Tcb) (st : State) (h1 : s.state ≠ .SynSent) (h2 : s.state ≠ .SynReceived)
-    (g1 : st ≠ .SynSent) (g2 : st ≠ .SynReceived) :
-    closeTo (s.shift ka kb) st = (closeTo s st).shift ka kb := by
-  unfold closeTo
+theorem shift_bumpNxt (s : Tcb) : bumpNxt (s.shift ka kb) = (bumpNxt s).shift ka kb := by
+  unfold bumpNxt
   rw [Tcb.shift_nxt, add_right_comm']
-  obtain ⟨lp, rp, mtu, ini, st0, snd, rcv, out, inc, tmo⟩ := s
-  cases st0 <;> first | exact absurd rfl h1 | exact absurd rfl h2 | skip
-  all_goals (cases st <;> first | exact absurd rfl g1 | exact absurd rfl g2 | rfl)
+  rfl
 
-/-- `close` in SYN-RECEIVED moves on with the unset `SND.WL2` (see `Model/TcbShift.lean`): excluded -/
-theorem shift_close (s : Tcb) (h : s.state ≠ .SynReceived) :
-    (s.shift ka kb).close = M.shift ka kb s.close := by
+theorem queueFin_eq (s : Tcb) :
+    s.queueFin = if s.outgoing.text.isEmpty then .ok (bumpNxt (s.enqueueBuilt s.finHdr.built)) else .ok s := by
+  unfold Tcb.queueFin
+  rw [Tcb.enqueue_eq]
+  rfl
+
+/-- `queue_fin`: the FIN takes `SND.NXT` and acknowledges `RCV.NXT` (set outside SYN-SENT) -/
+theorem shift_queueFin (s : Tcb) (h : s.state ≠ .SynSent) :
+    (s.shift ka kb).queueFin = shiftE ka kb s.queueFin := by
+  rw [queueFin_eq, queueFin_eq, Tcb.shift_otext, Tcb.shift_finHdr ka kb s h, Hdr.shift_built,
+    Tcb.shift_enqueueBuilt, shift_bumpNxt]
+  split <;> rfl
+
+theorem finPending_state (s : Tcb) (h : s.finPending = true) :
+    s.state = .FinWait1 ∨ s.state = .Closing ∨ s.state = .LastAck := by
+  unfold Tcb.finPending at h
+  cases hs : s.state <;> rw [hs] at h <;> simp at h ⊢
+
+/-- `if fin_pending { queue_fin() }` of `segments()`; a FIN is pending only after `close` -/
+theorem shift_finIfPending (b : Bool) (s : Tcb) (h : b = true → s.state ≠ .SynSent) :
+    Tcb.finIfPending b (s.shift ka kb) = shiftE ka kb (Tcb.finIfPending b s) := by
+  unfold Tcb.finIfPending
+  by_cases hb : b = true
+  · rw [if_pos hb, if_pos hb]; exact shift_queueFin ka kb s (h hb)
+  · rw [if_neg hb, if_neg hb]; rfl
+
+theorem shift_close (s : Tcb) : (s.shift ka kb).close = M.shift ka kb s.close := by
   unfold Tcb.close
   rw [Tcb.shift_state]
   cases hst : s.state <;> first
-    | exact absurd hst h
     | rfl
     | (have hne : s.state ≠ .SynSent := by rw [hst]; decide
        dsimp only
-       rw [Tcb.shift_enqueue ka kb _ _ _ (Tcb.shift_finHdr ka kb _ hne)]
-       simp only [Tcb.enqueue_eq, shiftE_ok, M.shift_ok]
-       have hu : (s.enqueueBuilt s.finHdr.built).state = s.state := (Tcb.enqueueBuilt_frame _ _).2.2.2.2.1
-       exact congrArg (fun t => Except.ok (t, CloseResult.Ok))
-         (shift_closeTo ka kb (s.enqueueBuilt s.finHdr.built) _ (by rw [hu, hst]; decide) (by rw [hu, hst]; decide)
-           (by decide) (by decide)))
+       have e := shift_setState_late ka kb s .FinWait1 hne (by decide)
+       rw [e, shift_queueFin ka kb _ (by intro hh; cases hh)]
+       cases Tcb.queueFin _ <;> rfl)
+    | (have hne : s.state ≠ .SynSent := by rw [hst]; decide
+       dsimp only
+       have e := shift_setState_late ka kb s .LastAck hne (by decide)
+       rw [e, shift_queueFin ka kb _ (by intro hh; cases hh)]
+       cases Tcb.queueFin _ <;> rfl)
 
 theorem shift_abort (s : Tcb) : (s.shift ka kb).abort = shiftE ka kb s.abort := by
   unfold Tcb.abort
@@ -170,36 +191,72 @@ theorem shift_markSent (s : Tcb) (b : Bool) : markSent (s.shift ka kb) b = (mark
   unfold markSent
   cases b <;> simp only [Bool.false_eq_true, if_false, if_true, Tcb.shift, List.map_map] <;> rfl
 
+theorem segmentize_state (m fuel : Nat) (s u : Tcb) (q : Nat) (h : Tcb.segmentize m fuel s q = .ok u) :
+    u.state = s.state ∧ u.incoming = s.incoming := by
+  induction fuel generalizing s q with
+  | zero => cases h; exact ⟨rfl, rfl⟩
+  | succ n ih =>
+    rw [segmentize_succ] at h
+    split at h
+    · cases h; exact ⟨rfl, rfl⟩
+    · split at h
+      · cases h
+      · have := ih _ _ h
+        exact ⟨this.1, this.2⟩
+
+theorem segmentizeIfOpen_state (s u : Tcb) (h : Tcb.segmentizeIfOpen s = .ok u) :
+    u.state = s.state ∧ u.incoming = s.incoming := by
+  unfold Tcb.segmentizeIfOpen at h
+  repeat' (split at h)
+  all_goals first
+    | (cases h; done)
+    | (cases h; exact ⟨rfl, rfl⟩)
+    | exact segmentize_state _ _ _ _ _ h
+
 theorem segments_eq (s : Tcb) :
     s.segments =
       match Tcb.segmentizeIfOpen (clearOneshot s) with
       | .error e => .error e
-      | .ok u =>
-        .ok (markSent u ((s.outgoing.oneshot.map fun h => (⟨h, []⟩ : Segment)) ++
-                (u.outgoing.retransmit.filter (·.needsTransmit)).map (·.segment)).isEmpty,
-             (s.outgoing.oneshot.map fun h => (⟨h, []⟩ : Segment)) ++
-                (u.outgoing.retransmit.filter (·.needsTransmit)).map (·.segment)) := by
+      | .ok u1 =>
+        match Tcb.finIfPending s.finPending u1 with
+        | .error e => .error e
+        | .ok u =>
+          .ok (markSent u ((s.outgoing.oneshot.map fun h => (⟨h, []⟩ : Segment)) ++
+                  (u.outgoing.retransmit.filter (·.needsTransmit)).map (·.segment)).isEmpty,
+               (s.outgoing.oneshot.map fun h => (⟨h, []⟩ : Segment)) ++
+                  (u.outgoing.retransmit.filter (·.needsTransmit)).map (·.segment)) := by
   unfold Tcb.segments clearOneshot markSent
   dsimp only
-  cases Tcb.segmentizeIfOpen _ <;> rfl
+  cases Tcb.segmentizeIfOpen _ with
+  | error e => rfl
+  | ok u1 =>
+    dsimp only
+    cases Tcb.finIfPending _ _ <;> rfl
 
 theorem shift_segments (s : Tcb) (hq : s.state = .SynSent → s.snd.wnd = 0) :
     (s.shift ka kb).segments = M.shiftOut ka kb s.segments := by
   rw [segments_eq, segments_eq]
   have e0 : clearOneshot (s.shift ka kb) = (clearOneshot s).shift ka kb := rfl
-  rw [e0, shift_segmentizeIfOpen ka kb (clearOneshot s) hq]
-  cases Tcb.segmentizeIfOpen (clearOneshot s) with
+  rw [e0, shift_segmentizeIfOpen ka kb (clearOneshot s) hq, Tcb.shift_finPending]
+  cases hu1 : Tcb.segmentizeIfOpen (clearOneshot s) with
   | error e => rfl
-  | ok u =>
-    simp only [shiftE_ok, M.shiftOut]
-    have e1 : ((s.shift ka kb).outgoing.oneshot.map fun h => (⟨h, []⟩ : Segment)) ++
-        ((u.shift ka kb).outgoing.retransmit.filter (·.needsTransmit)).map (·.segment) =
-        ((s.outgoing.oneshot.map fun h => (⟨h, []⟩ : Segment)) ++
-          (u.outgoing.retransmit.filter (·.needsTransmit)).map (·.segment)).map (Segment.shift ka kb) := by
-      simp only [Tcb.shift_oneshot, Tcb.shift_retransmit, List.map_append, List.map_map, List.filter_map]
-      rfl
-    rw [e1, shift_markSent]
-    simp only [List.isEmpty_map]
+  | ok u1 =>
+    simp only [shiftE_ok]
+    have hst : u1.state = s.state := (segmentizeIfOpen_state _ _ hu1).1
+    rw [shift_finIfPending ka kb _ u1 (fun hb => by
+      rw [hst]; rcases finPending_state s hb with e | e | e <;> rw [e] <;> decide)]
+    cases Tcb.finIfPending s.finPending u1 with
+    | error e => rfl
+    | ok u =>
+      simp only [shiftE_ok, M.shiftOut]
+      have e1 : ((s.shift ka kb).outgoing.oneshot.map fun h => (⟨h, []⟩ : Segment)) ++
+          ((u.shift ka kb).outgoing.retransmit.filter (·.needsTransmit)).map (·.segment) =
+          ((s.outgoing.oneshot.map fun h => (⟨h, []⟩ : Segment)) ++
+            (u.outgoing.retransmit.filter (·.needsTransmit)).map (·.segment)).map (Segment.shift ka kb) := by
+        simp only [Tcb.shift_oneshot, Tcb.shift_retransmit, List.map_append, List.map_map, List.filter_map]
+        rfl
+      rw [e1, shift_markSent]
+      simp only [List.isEmpty_map]
 
 /-! ## outside a connection: CLOSED and LISTEN -/
 
